@@ -295,9 +295,40 @@ def ctor_block(_b):
     return obs
 
 
+def bounds_block(_b):
+    """the bounds in force: a model built without bounds has the class defaults, one built with user bounds has those, and neither
+    building nor altering one instance changes what the next instance (or the class) holds -- every model class, evaluated"""
+    import copy
+    import pygaps
+    import pygaps.modelling as pgm
+    pygaps.logger.disabled = True
+    obs = []
+    for name in sorted(pgm._MODELS if hasattr(pgm, '_MODELS') else FIT_MODELS):
+        try:
+            cls = type(pgm.get_isotherm_model(name))
+        except Exception:
+            continue
+        base = f"{P}/base_model.IsothermBaseModel.__init__"
+        x = {'kind': 'c12.bounds_history', 'model': name}
+        defaults0 = copy.deepcopy(dict(zip(cls.param_names, cls.param_default_bounds)))
+        a = pgm.get_isotherm_model(name)
+        obs.append(static_ob(f"{base}/bounds.defaults_in_force_without_user_bounds/{name}", dict(a.param_bounds) == defaults0, str(a.param_bounds), backend='eval', replay=x))
+        user = {p_: (1e-3 * (i + 1), 7.0 + i) for i, p_ in enumerate(cls.param_names)}
+        b = pgm.get_isotherm_model(name, param_bounds=dict(user))
+        obs.append(static_ob(f"{base}/bounds.user_bounds_in_force/{name}", all(tuple(b.param_bounds[p_]) == user[p_] for p_ in cls.param_names), str(b.param_bounds), backend='eval', replay=x))
+        c = pgm.get_isotherm_model(name)
+        obs.append(static_ob(f"{base}/bounds.defaults_in_force_after_a_user_bounded_instance/{name}", dict(c.param_bounds) == defaults0, str(c.param_bounds), backend='eval', replay=x))
+        first = cls.param_names[0]
+        c.param_bounds[first] = (0.25, 0.5)
+        d = pgm.get_isotherm_model(name)
+        ok = dict(d.param_bounds) == defaults0 and dict(zip(cls.param_names, cls.param_default_bounds)) == defaults0 and d.param_bounds is not c.param_bounds
+        obs.append(static_ob(f"{base}/bounds.instances_do_not_share_their_bounds/{name}", ok, str(d.param_bounds), backend='eval', replay=x))
+    return obs
+
+
 def _dispatch(job):
     kind, arg = job
-    return {'fit': fit_block, 'clamp': clamp_block, 'guess': guess_block, 'ctor': ctor_block}[kind](arg)
+    return {'fit': fit_block, 'clamp': clamp_block, 'guess': guess_block, 'ctor': ctor_block, 'bounds': bounds_block}[kind](arg)
 
 
 FIT_MODELS = ['Henry', 'Langmuir', 'DSLangmuir', 'BET', 'Quadratic', 'TemkinApprox', 'FHVST']
@@ -312,7 +343,7 @@ def run(rep):
                'convergence, recovery of generating parameters, refit stability and unit covariance are numerical facts about the optimiser: bounded only')
     rep.trust('CPython 3.12', 'z3 5.1.0', 'pgv.sx', 'pgv.lift', 'pgv.npproxy')
     jobs = [('fit', (n, 'ok')) for n in FIT_MODELS] + [('fit', (n, 'ok', 'reversed')) for n in FIT_MODELS if n != 'Henry'] + [('fit', (n, mode)) for n in ('Langmuir', 'FHVST') for mode in ('fail', 'ValueError')] + \
-        [('clamp', None), ('ctor', None)] + [('guess', k) for k in (1, 2, 3, 4)]
+        [('clamp', None), ('ctor', None), ('bounds', None)] + [('guess', k) for k in (1, 2, 3, 4)]
     obs, crashes = par.pmap(_dispatch, jobs)
     rep.extend(obs)
     if crashes:
